@@ -72,6 +72,13 @@ type tcase struct {
 	// Handover: before the last phase these sockets are closed; with Rebind a successor socket is bound to the same address
 	// (it inherits the predecessor's send specs). Datagrams of the last phase must reach the successor only, or nobody.
 	Handover []handSpec `json:"handover,omitempty"`
+	// QueueSize > 0: every router gets this queue capacity. The ordinary phases then send at most QueueSize-4 datagrams
+	// each (the network is flushed between phases), and a last, steady phase keeps SteadyWindow datagrams in flight
+	// (credit returned when the destination socket has read the datagram) over flows whose delivery was observed before,
+	// SteadyTotal datagrams in all: every queue stays below its capacity all the time, so nothing may be lost.
+	QueueSize    int `json:"queue_size,omitempty"`
+	SteadyWindow int `json:"steady_window,omitempty"`
+	SteadyTotal  int `json:"steady_total,omitempty"`
 }
 
 type handSpec struct {
@@ -132,6 +139,7 @@ type sockM struct {
 	from      int    // first phase in which the socket is open
 	until     int    // first phase in which it is closed (openEnd: never closed before the end)
 	succ      *sockM // socket bound to the same address after this one was closed
+	w         *world
 }
 
 const openEnd = 1 << 30
@@ -184,12 +192,16 @@ type world struct {
 	allSend []*sendEv
 	phase   int32
 	stale   []net.PacketConn // closed predecessor sockets (stale handles)
+	// steady phase
+	steadyFrom uint64        // payload ids above this one belong to the steady phase (0: not running)
+	credits    chan struct{} // one token per datagram that may be in flight
+	phaseSent  int32         // datagrams written in the current ordinary phase (QueueSize cases)
 }
 
 func (w *world) build() error {
 	c := w.c
 	for i, rs := range c.Routers {
-		cfg := &vnet.RouterConfig{Name: rs.Name, CIDR: rs.CIDR, LoggerFactory: vn.Silent(), MinDelay: time.Duration(rs.DelayUs) * time.Microsecond, MaxJitter: time.Duration(rs.JitterUs) * time.Microsecond}
+		cfg := &vnet.RouterConfig{Name: rs.Name, CIDR: rs.CIDR, LoggerFactory: vn.Silent(), MinDelay: time.Duration(rs.DelayUs) * time.Microsecond, MaxJitter: time.Duration(rs.JitterUs) * time.Microsecond, QueueSize: c.QueueSize}
 		if rs.Parent >= 0 {
 			nt := &vnet.NATType{Mode: vnet.NATMode(rs.NAT.Mode), MappingBehavior: vnet.EndpointDependencyType(rs.NAT.MapB), FilteringBehavior: vnet.EndpointDependencyType(rs.NAT.FilB)}
 			cfg.NATType = nt
@@ -373,7 +385,7 @@ func (w *world) openSockets() error {
 			return fmt.Errorf("socket %d (%s:%d on host %d): %w", i, ip, ss.Port, ss.Host, err)
 		}
 		la := conn.LocalAddr().(*net.UDPAddr)
-		s := &sockM{idx: i, host: hm, ip: la.IP.String(), port: la.Port, conn: conn, connected: connected, done: make(chan struct{}), until: openEnd}
+		s := &sockM{idx: i, host: hm, ip: la.IP.String(), port: la.Port, conn: conn, connected: connected, done: make(chan struct{}), until: openEnd, w: w}
 		hm.socks = append(hm.socks, s)
 		w.socks = append(w.socks, s)
 		s.startReader()
@@ -395,8 +407,127 @@ func (s *sockM) startReader() {
 			s.mu.Lock()
 			s.recv = append(s.recv, ev)
 			s.mu.Unlock()
+			if w := s.w; w != nil && n >= 8 {
+				// steady phase: a datagram that has been read no longer occupies any queue
+				if sf := atomic.LoadUint64(&w.steadyFrom); sf > 0 && vn.PayloadID(buf[:n]) > sf {
+					select {
+					case w.credits <- struct{}{}:
+					default:
+					}
+				}
+			}
 		}
 	}()
+}
+
+// steady keeps SteadyWindow datagrams in flight over flows that were seen to deliver in the last ordinary phase.
+func (w *world) steady(pi int, idc *uint64, r *res.Result) (*viol, string) {
+	c := w.c
+	type flow struct {
+		s   *sockM
+		dst *net.UDPAddr
+	}
+	// flows proven by the last ordinary phase: (sender socket, destination) of datagrams that some socket has read
+	byID := map[uint64]*sendEv{}
+	w.smu.Lock()
+	for _, sd := range w.allSend {
+		if sd.phase == pi-1 && sd.n >= 8 {
+			byID[sd.id] = sd
+		}
+	}
+	w.smu.Unlock()
+	var flows []flow
+	seen := map[string]bool{}
+	for _, t := range w.socks {
+		t.mu.Lock()
+		for _, g := range t.recv {
+			if len(g.payload) < 8 || strings.HasPrefix(g.src, "127.") {
+				continue
+			}
+			sd := byID[vn.PayloadID(g.payload)]
+			if sd == nil || !sd.sock.openIn(pi) || vn.Hash(g.payload) != sd.hash {
+				continue
+			}
+			k := fmt.Sprintf("%d>%s", sd.sock.idx, sd.dst)
+			if da, err := net.ResolveUDPAddr("udp", sd.dst); err == nil && !seen[k] && !da.IP.IsLoopback() {
+				seen[k] = true
+				flows = append(flows, flow{sd.sock, da})
+			}
+		}
+		t.mu.Unlock()
+	}
+	if len(flows) == 0 {
+		r.Count("steady_phases_without_a_proven_flow", 1)
+		return nil, ""
+	}
+	sort.Slice(flows, func(i, j int) bool {
+		if flows[i].s.idx != flows[j].s.idx {
+			return flows[i].s.idx < flows[j].s.idx
+		}
+		return flows[i].dst.String() < flows[j].dst.String()
+	})
+	// one flow per sender socket (a socket's writes come from one goroutine), at most four senders
+	var use []flow
+	for _, f := range flows {
+		if len(use) == 0 || use[len(use)-1].s != f.s {
+			use = append(use, f)
+		}
+	}
+	if len(use) > 4 {
+		use = use[:4]
+	}
+	atomic.StoreInt32(&w.phase, int32(pi))
+	w.credits = make(chan struct{}, c.SteadyWindow)
+	for i := 0; i < c.SteadyWindow; i++ {
+		w.credits <- struct{}{}
+	}
+	atomic.StoreUint64(&w.steadyFrom, atomic.LoadUint64(idc))
+	// pace the writes so that the datagrams in flight are spread over the routers' delay instead of travelling as one burst
+	// (a queue that is emptied in one sweep hides mistakes in its bookkeeping)
+	gap := 20 * time.Microsecond
+	for _, rm := range w.routers {
+		if d := time.Duration(rm.spec.DelayUs) * time.Microsecond / time.Duration(c.SteadyWindow); d > gap {
+			gap = d
+		}
+	}
+	var left int32 = int32(c.SteadyTotal)
+	var stalled int32
+	var wg sync.WaitGroup
+	for _, f := range use {
+		wg.Add(1)
+		go func(f flow) {
+			defer wg.Done()
+			for atomic.AddInt32(&left, -1) >= 0 && atomic.LoadInt32(&stalled) == 0 {
+				select {
+				case <-w.credits:
+				case <-time.After(10 * time.Second):
+					atomic.StoreInt32(&stalled, 1) // credits do not come back: datagrams are missing; the checker says which
+					return
+				}
+				w.send(f.s, f.dst, 8+int(atomic.LoadInt32(&left))%93, atomic.AddUint64(idc, 1), pi)
+				r.Count("datagrams_sent", 1)
+				r.Count("steady_datagrams", 1)
+				time.Sleep(gap)
+			}
+		}(f)
+	}
+	wg.Wait()
+	if atomic.LoadInt32(&stalled) == 0 {
+		// wait until everything in flight has been read (all credits are back)
+		dl := time.Now().Add(10 * time.Second)
+		for len(w.credits) < c.SteadyWindow && time.Now().Before(dl) {
+			time.Sleep(200 * time.Microsecond)
+		}
+	} else {
+		r.Count("steady_phases_stalled", 1)
+	}
+	atomic.StoreUint64(&w.steadyFrom, 0)
+	r.Count("steady_phases", 1)
+	r.DistinctKey(fmt.Sprintf("steady flows=%d window/queue=%d%%", len(use), 100*c.SteadyWindow/c.QueueSize))
+	if !w.flushAll() {
+		return nil, "inconclusive: flush marker did not return after the steady phase"
+	}
+	return nil, ""
 }
 
 // handover closes the listed sockets before phase pi (the network is flushed, so nothing is in flight) and binds
@@ -1009,7 +1140,20 @@ func genCase(rng *rand.Rand) *tcase {
 	}
 	// phase 4: phase 1 again (mappings must be reused)
 	c.Phases = [][]sendSpec{p1, nil, p3, p1}
-	// half of the cases: a fifth phase after some sockets were closed and some of those addresses bound again
+	// a quarter of the cases: bounded router queues and a steady phase (exclusive with the handover phase)
+	if rng.Intn(4) == 0 {
+		c.QueueSize = 32 + rng.Intn(64)
+		c.SteadyWindow = c.QueueSize/2 + 2 + rng.Intn(c.QueueSize/4)
+		c.SteadyTotal = 3*c.QueueSize + rng.Intn(2*c.QueueSize)
+		// queues must not run empty all the time: the root router delays, and so does every second other router
+		for i := range c.Routers {
+			if c.Routers[i].DelayUs == 0 && (i == 0 || rng.Intn(2) == 0) {
+				c.Routers[i].DelayUs = 500 + rng.Intn(2500)
+			}
+		}
+		return c
+	}
+	// half of the remaining cases: a fifth phase after some sockets were closed and some of those addresses bound again
 	if rng.Intn(2) == 0 {
 		for si, ss := range c.Socks {
 			if ss.Connect == "" && rng.Intn(3) == 0 {
@@ -1095,6 +1239,7 @@ func runCase(c *tcase, r *res.Result) (*viol, string) {
 	}
 	for pi, ph := range c.Phases {
 		atomic.StoreInt32(&w.phase, int32(pi))
+		atomic.StoreInt32(&w.phaseSent, 0)
 		if pi == len(c.Phases)-1 && pi >= 4 && len(c.Handover) > 0 {
 			if why := w.handover(pi, r); why != "" {
 				return nil, why
@@ -1148,6 +1293,10 @@ func runCase(c *tcase, r *res.Result) (*viol, string) {
 						continue
 					}
 					for k := 0; k < sp.Count; k++ {
+						if c.QueueSize > 0 && int(atomic.AddInt32(&w.phaseSent, 1)) > c.QueueSize-4 {
+							r.Count("sends_skipped_to_stay_below_queue_capacity", 1)
+							continue
+						}
 						w.send(s, dst, sp.Size, atomic.AddUint64(&idc, 1), pi)
 						r.Count("datagrams_sent", 1)
 					}
@@ -1177,6 +1326,11 @@ func runCase(c *tcase, r *res.Result) (*viol, string) {
 				return &viol{"vnet:stuck", fmt.Sprintf("phase %d: a flush marker (a datagram a host sends to itself through its router) did not come back within 10s although every router goroutine is parked: a queued datagram is not being forwarded", pi)}, ""
 			}
 			return nil, "inconclusive: flush marker did not return"
+		}
+	}
+	if c.QueueSize > 0 && c.SteadyTotal > 0 {
+		if v, why := w.steady(len(c.Phases), &idc, r); v != nil || why != "" {
+			return v, why
 		}
 	}
 	// close the sockets: readers drain what is queued and stop
